@@ -72,3 +72,6 @@ def run(ck):
     common.import_results(ck, C14, "1", None, "5")
     common.import_results(ck, C14, "2", None, "5")
     common.import_results(ck, C01, "6", None, "3")
+    common.import_results(ck, C01, "5", None, "3")
+    # a child of a TransientSource that answered Disable stays silent across re-registrations of the wrapper (E3)
+    common.import_e3(ck, "6", lambda inst: "asked to be disabled" in inst or "forwarded" in inst)
